@@ -1058,3 +1058,20 @@ package app
 //@   assert_at JoinPath#1 wrap.GetResetupStatus.key [C17]: len(callarg0) == 2 && callarg0[0] == pathResetupStatus && callarg0[1] == host
 //@   assert_at Get#1 wrap.GetResetupStatus.op [C17]: callarg0 == resultof("JoinPath", 1)
 //@   assert_at return#* wrap.GetResetupStatus.answer [C17]: result1 == resultof("Get", 1) && result0 == resetupStatus
+
+// ---- remaining appDCS wrappers: which key, and the coordination call's answer handed through ---------------------------------
+//@ func (*app.appDCS).GetNodeConfiguration
+//@   assert_at JoinPath#1 wrap.GetNodeConfiguration.key [C14]: len(callarg0) == 2 && callarg0[0] == pathHANodes && callarg0[1] == host
+//@   assert_at Get#1 wrap.GetNodeConfiguration.op [C14]: callarg0 == resultof("JoinPath", 1)
+//@   assert_at return#* wrap.GetNodeConfiguration.answer [C14]: result1 == resultof("Get", 1) && result0 == nc
+//@ func (*app.appDCS).SetResetupStatus
+//@   assert_at JoinPath#1 wrap.SetResetupStatus.key [C17]: len(callarg0) == 2 && callarg0[0] == pathResetupStatus && callarg0[1] == host
+//@   assert_at Set#1 wrap.SetResetupStatus.op [C17]: callarg0 == resultof("JoinPath", 1)
+//@   assert_at return#* wrap.SetResetupStatus.answer [C17]: reached("Set", 1) ==> result == resultof("Set", 1)
+//@ func (*app.appDCS).GetClusterCascadeFqdnsFromDcs
+//@   assert_at GetChildren#1 wrap.GetClusterCascadeFqdnsFromDcs.key [C10,C16]: callarg0 == dcs.PathCascadeNodesPrefix
+//@   assert_at return#* wrap.GetClusterCascadeFqdnsFromDcs.answer [C10,C16]: reached("GetChildren", 1) && (resultof("GetChildren", 1, 1) == nil ==> result1 == nil && result0 == resultof("GetChildren", 1, 0)) && (resultof("GetChildren", 1, 1) != nil && !errIs(resultof("GetChildren", 1, 1), dcs.ErrNotFound) ==> result1 == resultof("GetChildren", 1, 1))
+//@ func (*app.appDCS).FetchCascadeNodeConfigurations
+//@   assert_at GetChildren#1 wrap.FetchCascadeNodeConfigurations.key [C16]: callarg0 == dcs.PathCascadeNodesPrefix
+//@   assert_at JoinPath#1 wrap.FetchCascadeNodeConfigurations.node_key [C16]: len(callarg0) == 2 && callarg0[0] == dcs.PathCascadeNodesPrefix && callarg0[1] == host
+//@   assert_at Get#1 wrap.FetchCascadeNodeConfigurations.op [C16]: callarg0 == resultof("JoinPath", 1)
